@@ -16,8 +16,8 @@ using namespace verif;
 using Tins::DNS;
 
 const char* const PROP_ID = "C10";
-const size_t PROP_MAXLEN_QUICK = 384;
-const size_t PROP_MAXLEN_THOROUGH = 768;
+const size_t PROP_MAXLEN_QUICK = 512;
+const size_t PROP_MAXLEN_THOROUGH = 1024;
 
 typedef std::vector<uint8_t> Bytes;
 typedef std::vector<std::string> Labels;  // a domain name as its list of labels; the root name is the empty list
@@ -290,45 +290,44 @@ static void trim_to_limit(Labels& n) {  // drop leading labels until the name fi
 static Labels gen_name(Src& s, NamePool& pool, bool force_short) {
     Labels n;
     if (force_short) { n.push_back(gen_label(s).substr(0, 3)); return n; }
-    size_t w = s.weighted({5, 7, 2, 1, 1});
-    if (w == 1 && pool.names.empty()) w = 0;
-    switch (w) {
-        case 0: {  // short fresh name
-            unsigned k = 1 + (s.u8() & 3);
+    unsigned b = s.u8();
+    unsigned shape = b & 7;
+    if (shape >= 2 && shape <= 4 && pool.names.empty()) shape = 0;
+    switch (shape) {
+        case 0: case 1: {  // short fresh name
+            unsigned k = 1 + ((b >> 3) & 3);
             for (unsigned i = 0; i < k; ++i) n.push_back(gen_label(s));
             break;
         }
-        case 1: {  // new labels in front of a suffix of an earlier name (this is what makes compression meaningful)
-            unsigned b = s.u8();
-            const Labels& base = pool.names[(b >> 4) % pool.names.size()];
-            unsigned pre = (b & 3) == 3 ? 2 : (b & 3) == 0 ? 0 : 1;
-            size_t start = ((b >> 2) & 3) == 0 ? 0 : s.pick(base.size() + 1);
+        case 2: case 3: case 4: {  // new labels in front of a suffix of an earlier name (this is what makes compression meaningful)
+            const Labels& base = pool.names[(b >> 3) % pool.names.size()];
+            unsigned pre = shape == 2 ? 0 : shape == 3 ? 1 : 1 + ((b >> 7) & 1);
+            size_t start = (b & 0x40) ? s.pick(base.size() + 1) : 0;
             for (unsigned i = 0; i < pre; ++i) n.push_back(gen_label(s));
             n.insert(n.end(), base.begin() + start, base.end());
             if (n.empty()) n.push_back(gen_label(s));
             break;
         }
-        case 2: {  // many short labels (ip6.arpa names have 34), 24..127
-            unsigned cnt = 24 + s.u8() % 104;
-            unsigned seed = s.u8();
+        case 5: {  // many short labels (ip6.arpa names have 34), 24..127
+            unsigned c = s.u8();
+            unsigned cnt = (b & 8) ? 28 + (c & 7) : 24 + c % 104;  // half of them around the 31/32 boundary
+            unsigned seed = c * 37 + (b >> 4);
             for (unsigned i = 0; i < cnt; ++i) {
-                std::string l(1, LDH[(seed + i * (1 + (seed >> 5))) % 36]);
+                std::string l(1, LDH[(seed + i * (1 + (seed >> 5) % 7)) % 36]);
                 if ((seed & 0x10) && i % 16 == 5 && cnt < 60) l += LDH[(seed + i) % 38];  // a few two-byte labels
                 n.push_back(l);
             }
             break;
         }
-        case 3: {  // as long as a name can be: 255 octets on the wire (or just below)
-            unsigned b = s.u8();
-            size_t total = 255 - (b & 3);
-            unsigned style = (b >> 2) & 3;
+        case 6: {  // as long as a name can be: 255 octets on the wire (or just below)
+            size_t total = 255 - ((b >> 3) & 3);
+            unsigned style = (b >> 5) & 3;
             size_t used = 1;
             unsigned i = 0;
             while (used < total) {
                 size_t room = total - used - 1;  // bytes available for this label's content
                 if (room == 0) {                 // cannot place a zero-length label: grow the previous one
                     if (!n.empty() && n.back().size() < 63) n.back().push_back('z');
-                    else total = used;
                     break;
                 }
                 size_t want = style == 0 ? 63 : style == 1 ? 1 + (i * 7 + b) % 63 : style == 2 ? 31 : 5;
@@ -342,7 +341,9 @@ static Labels gen_name(Src& s, NamePool& pool, bool force_short) {
             }
             break;
         }
-        default: break;  // the root name
+        default:  // the root name, or a single label
+            if (!(b & 8)) n.push_back(gen_label(s));
+            break;
     }
     trim_to_limit(n);
     return n;
@@ -428,15 +429,21 @@ static Rec gen_rec(Src& s, GenState& g) {
     return r;
 }
 
-static Qry gen_qry(Src& s, GenState& g) {
+static Qry gen_qry(Src& s, GenState& g, bool from_wire) {
     Qry q;
     q.name = g.name(s);
     unsigned b = s.u8();
-    // only the enumerators of DNS::QueryType / DNS::QueryClass: the API carries these fields as enums
+    // add_query() takes DNS::QueryType / DNS::QueryClass, so edits use enumerators only; a question that arrives on the
+    // wire may carry any 16-bit value (ANY = 255, HTTPS = 65, CAA = 257, the mDNS "QU" class 0x8001)
     static const uint16_t QT[8] = {1, 28, 12, 15, 2, 6, 16, 5};
     q.type = (b & 8) ? (uint16_t)(1 + (b >> 4) * 3 + (b & 3)) : QT[b & 7];  // 1..49
     static const uint16_t QC[4] = {1, 1, 3, 255};
     q.cls = (b & 0x80) ? 4 : QC[(b >> 4) & 3];
+    if (from_wire && (b & 0x4f) == 0x47) {
+        static const uint16_t WT[4] = {255, 65, 257, 65535};
+        q.type = WT[(b >> 4) & 3];
+        if (b & 0x80) q.cls = 0x8001;
+    }
     return q;
 }
 
@@ -883,7 +890,10 @@ static void history(Src& s, Ctx& ctx) {
     size_t sec_end[4] = {12, 12, 12, 12};
     bool nontrivial = false, many = false;
     std::ostringstream sample;
-    bool wire = s.chance(70);
+    unsigned kb = s.u8();
+    bool wire = !(kb == 0 || (kb & 3) == 1);
+    unsigned nedits = (kb >> 2) % 13;  // 0..12, drawn before the records so that a short input still gets (default) edits
+    if (kb >= 0xd0) nedits = (kb >> 2) & 3;
     if (wire) {
         Sub hs(s);
         Src& x = hs.s;
@@ -899,7 +909,7 @@ static void history(Src& s, Ctx& ctx) {
         unsigned fl = x.u16();
         m.h.qr = fl & 1; m.h.opcode = (fl >> 1) & 15; m.h.aa = (fl >> 5) & 1; m.h.tc = (fl >> 6) & 1; m.h.rd = (fl >> 7) & 1;
         m.h.ra = (fl >> 8) & 1; m.h.z = (fl >> 9) & 1; m.h.ad = (fl >> 10) & 1; m.h.cd = (fl >> 11) & 1; m.h.rcode = (fl >> 12) & 15;
-        for (unsigned i = 0; i < cnt[0]; ++i) { Sub e(s); m.q.push_back(gen_qry(e.s, g)); }
+        for (unsigned i = 0; i < cnt[0]; ++i) { Sub e(s); m.q.push_back(gen_qry(e.s, g, true)); }
         for (int k = 0; k < 3; ++k)
             for (unsigned i = 0; i < cnt[k + 1]; ++i) { Sub e(s); m.sec[k].push_back(gen_rec(e.s, g)); }
         Sub cs(s);  // compression choices
@@ -936,7 +946,6 @@ static void history(Src& s, Ctx& ctx) {
     }
     check_roundtrip(ctx, *d, m);
 
-    unsigned nedits = (unsigned)s.range(0, 12);
     ctx.hash(nedits);
     for (unsigned e = 0; e < nedits; ++e) {
         Sub es(s);
@@ -966,7 +975,7 @@ static void history(Src& s, Ctx& ctx) {
             std::string opname;
             try {
                 if (op == 0) {
-                    Qry q = gen_qry(x, g);
+                    Qry q = gen_qry(x, g, false);
                     check_codec(ctx, q.name);
                     if (q.name.size() >= 31) many = true;
                     if (q.name.size() >= 32) ctx.label("name>=32-labels");
@@ -1029,7 +1038,12 @@ static void hostile_check(Ctx& ctx, const Bytes& w) {
     try {
         DNS d(w.data(), (uint32_t)w.size());
         (void)d.questions_count(); (void)d.answers_count(); (void)d.authority_count(); (void)d.additional_count();
-        try { DNS::queries_type q = d.queries(); } catch (const Tins::exception_base&) { getter_threw = true; }
+        try {
+            DNS::queries_type q = d.queries();
+            unsigned acc = 0;
+            for (const DNS::query& e : q) acc += (unsigned)e.dname().size() + (unsigned)e.query_type() + (unsigned)e.query_class();
+            if (acc == 0xffffffffu) ctx.label("never");
+        } catch (const Tins::exception_base&) { getter_threw = true; }
         for (int k = 0; k < 3; ++k) {
             try {
                 DNS::resources_type rs = k == 0 ? d.answers() : k == 1 ? d.authority() : d.additional();
@@ -1053,13 +1067,16 @@ static void hostile_check(Ctx& ctx, const Bytes& w) {
 static void hostile_structured(Src& s, Ctx& ctx) {
     Model m;
     GenState g;
-    Sub hs(s);
-    unsigned cb = hs.s.u8(), c2 = hs.s.u8();
+    // the corruption programme comes first so that a short input still gets varied corruptions
+    unsigned cb = s.u8(), c2 = s.u8();
+    unsigned ncorr = 1 + (cb >> 6) % 3;
+    struct Corr { unsigned kind, a, b, c; } corr[3];
+    for (unsigned c = 0; c < ncorr; ++c) { corr[c].kind = s.u8(); corr[c].a = s.u8(); corr[c].b = s.u8(); corr[c].c = s.u8(); }
     int mode = cb % 3;
     unsigned cnt[4];
     for (int k = 0; k < 4; ++k) cnt[k] = (c2 >> (2 * k)) & 3;
-    if (c2 == 0) cnt[0] = cnt[1] = 1;
-    for (unsigned i = 0; i < cnt[0]; ++i) { Sub e(s); m.q.push_back(gen_qry(e.s, g)); }
+    if (cnt[0] + cnt[1] + cnt[2] + cnt[3] < 2) cnt[0] = cnt[1] = 1;
+    for (unsigned i = 0; i < cnt[0]; ++i) { Sub e(s); m.q.push_back(gen_qry(e.s, g, true)); }
     for (int k = 0; k < 3; ++k)
         for (unsigned i = 0; i < cnt[k + 1]; ++i) { Sub e(s); m.sec[k].push_back(gen_rec(e.s, g)); }
     Sub cs(s);
@@ -1068,42 +1085,64 @@ static void hostile_structured(Src& s, Ctx& ctx) {
     enc.s = &cs.s;
     enc.encode(m);
     Bytes w = enc.out;
-    unsigned ncorr = 1 + (unsigned)s.range(0, 2);
     std::ostringstream sample;
     sample << "hostile(" << w.size() << "B";
     auto put_ptr = [&](size_t at, size_t target) {
         if (at + 1 < w.size()) { w[at] = (uint8_t)(0xc0 | ((target >> 8) & 0x3f)); w[at + 1] = (uint8_t)target; }
     };
-    auto some = [&](const std::vector<size_t>& v, size_t dflt) { return v.empty() ? dflt : v[s.pick(v.size())]; };
+    auto some = [&](const std::vector<size_t>& v, unsigned sel, size_t dflt) { return v.empty() ? dflt : v[sel % v.size()]; };
     for (unsigned c = 0; c < ncorr; ++c) {
-        unsigned kind = (unsigned)s.range(0, 11);
-        size_t at = some(enc.name_starts, 12);
-        if (kind >= 1 && kind <= 4 && !enc.ptrs.empty() && s.boolean()) at = enc.ptrs[s.pick(enc.ptrs.size())].pos;  // retarget a real pointer
+        const Corr& k = corr[c];
+        unsigned kind = k.kind % 13;
+        size_t at = some(enc.name_starts, k.a, 12);
+        if (kind <= 5 && !enc.ptrs.empty() && (k.c & 1)) at = enc.ptrs[k.a % enc.ptrs.size()].pos;  // retarget a real pointer
         switch (kind) {
             case 0: put_ptr(at, at); ctx.label("hostile:pointer-to-self"); sample << " self@" << at; break;
-            case 1: put_ptr(at, at + 1 + s.range(0, 40)); ctx.label("hostile:pointer-forward"); sample << " fwd@" << at; break;
-            case 2: { static const size_t OV[4] = {0, 1, 2, 100}; size_t t = s.boolean() ? w.size() + OV[s.pick(4)] : 0x3fff; put_ptr(at, t); ctx.label("hostile:pointer-past-end"); sample << " end@" << at; break; }
-            case 3: put_ptr(at, s.range(0, 11)); ctx.label("hostile:pointer-into-header"); sample << " hdr@" << at; break;
-            case 4: { size_t b = some(enc.name_starts, 12); put_ptr(at, b); if (b != at) put_ptr(b, at); ctx.label("hostile:pointer-loop"); sample << " loop@" << at << "<->" << b; break; }
-            case 5: { size_t lp = some(enc.len_pos, 12); if (lp < w.size()) w[lp] = (uint8_t)(s.boolean() ? 63 : w[lp] + 1 + s.range(0, 30)) & 63; ctx.label("hostile:label-length"); sample << " len@" << lp; break; }
-            case 6: { size_t lp = some(enc.len_pos, 12); if (lp < w.size()) w[lp] = (uint8_t)((s.boolean() ? 0x40 : 0x80) | (w[lp] & 63)); ctx.label("hostile:label-type-40-80"); sample << " lt@" << lp; break; }
-            case 7: { size_t f = 4 + 2 * s.pick(4); unsigned v = s.boolean() ? 0xffff : ((w[f] << 8) | w[f + 1]) + 1 + (unsigned)s.range(0, 3); w[f] = (uint8_t)(v >> 8); w[f + 1] = (uint8_t)v; ctx.label("hostile:count-too-large"); sample << " cnt"; break; }
-            case 8: { size_t rp = some(enc.rdlen_pos, 12); static const unsigned RV[6] = {0, 1, 2, 3, 0xffff, 17}; if (rp + 1 < w.size()) { unsigned v = s.boolean() ? RV[s.pick(6)] : ((w[rp] << 8) | w[rp + 1]) + (unsigned)s.range(0, 4) - 2; w[rp] = (uint8_t)(v >> 8); w[rp + 1] = (uint8_t)v; } ctx.label("hostile:rdlength"); sample << " rdlen@" << rp; break; }
-            case 9: { size_t n = s.pick(w.size() + 1); w.resize(n); ctx.label("hostile:truncated"); sample << " cut" << n; break; }
-            case 10: { // cut right behind a label or inside a name: the name ends exactly at the end of the message
-                size_t lp = some(enc.len_pos, 12);
-                if (lp < w.size()) { size_t n = std::min(w.size(), lp + 1 + (s.boolean() ? (size_t)w[lp] : s.pick(w[lp] + 1u))); w.resize(n); }
+            case 1: put_ptr(at, at + 1 + k.b % 41); ctx.label("hostile:pointer-forward"); sample << " fwd@" << at; break;
+            case 2: { static const size_t OV[4] = {0, 1, 2, 100}; size_t t = (k.b & 4) ? 0x3fff : w.size() + OV[k.b & 3]; put_ptr(at, t); ctx.label("hostile:pointer-past-end"); sample << " end@" << at; break; }
+            case 3: put_ptr(at, k.b % 12); ctx.label("hostile:pointer-into-header"); sample << " hdr@" << at; break;
+            case 4: { size_t b = some(enc.name_starts, k.b, 12); put_ptr(at, b); if (b != at) put_ptr(b, at); ctx.label("hostile:pointer-loop"); sample << " loop@" << at << "<->" << b; break; }
+            case 5: { size_t t = 12 + (size_t)((k.b << 8) | k.c) % (w.size() > 12 ? w.size() - 12 : 1); put_ptr(at, t); ctx.label("hostile:pointer-anywhere"); sample << " ptr@" << at << "->" << t; break; }
+            case 6: { size_t lp = some(enc.len_pos, k.a, 12); if (lp < w.size()) w[lp] = (uint8_t)((k.b & 1) ? 63 : w[lp] + 1 + (k.b >> 1) % 31) & 63; ctx.label("hostile:label-length"); sample << " len@" << lp; break; }
+            case 7: { size_t lp = some(enc.len_pos, k.a, 12); if (lp < w.size()) w[lp] = (uint8_t)(((k.b & 1) ? 0x40 : 0x80) | (w[lp] & 63)); ctx.label("hostile:label-type-40-80"); sample << " lt@" << lp; break; }
+            case 8: {
+                size_t f = 4 + 2 * (k.a & 3);
+                if (f + 1 < w.size()) {
+                    unsigned v = (k.b & 1) ? 0xffff : ((w[f] << 8) | w[f + 1]) + 1 + ((k.b >> 1) & 3);
+                    w[f] = (uint8_t)(v >> 8);
+                    w[f + 1] = (uint8_t)v;
+                }
+                ctx.label("hostile:count-too-large");
+                sample << " cnt";
+                break;
+            }
+            case 9: {
+                size_t rp = some(enc.rdlen_pos, k.a, 12);
+                static const unsigned RV[8] = {0, 1, 2, 3, 0xffff, 17, 4, 16};
+                if (rp + 1 < w.size()) {
+                    unsigned v = (k.b & 1) ? RV[(k.b >> 1) & 7] : ((w[rp] << 8) | w[rp + 1]) + ((k.b >> 1) % 5) - 2;
+                    w[rp] = (uint8_t)(v >> 8);
+                    w[rp + 1] = (uint8_t)v;
+                }
+                ctx.label("hostile:rdlength");
+                sample << " rdlen@" << rp;
+                break;
+            }
+            case 10: { size_t n = (size_t)((k.a << 8) | k.b) % (w.size() + 1); w.resize(n); ctx.label("hostile:truncated"); sample << " cut" << n; break; }
+            case 11: {  // cut right behind a label or inside one: the name ends exactly at the end of the message
+                size_t lp = some(enc.len_pos, k.a, 12);
+                if (lp < w.size()) { size_t n = std::min(w.size(), lp + 1 + ((k.b & 1) ? (size_t)w[lp] : (size_t)(k.b >> 1) % (w[lp] + 1u))); w.resize(n); }
                 ctx.label("hostile:cut-at-label");
                 sample << " cutlabel";
                 break;
             }
-            default: { size_t p = s.pick(w.size() + 1); if (p < w.size()) w[p] = s.u8(); ctx.label("hostile:random-byte"); sample << " byte@" << p; break; }
+            default: { size_t p = (size_t)((k.a << 8) | k.b) % (w.size() + 1); if (p < w.size()) w[p] = (uint8_t)k.c; ctx.label("hostile:random-byte"); sample << " byte@" << p; break; }
         }
     }
     sample << ")";
     ctx.hash(hash_bytes(w.data(), w.size()));
     ctx.hash(2);
-    if (ctx.logging()) ctx.log("hostile message derived from a reference message: " + hex(w, 2000));
+    if (ctx.logging()) ctx.log("hostile message derived from a reference message:\n" + show(m) + "  bytes " + hex(w, 2000));
     hostile_check(ctx, w);
     ctx.label("hostile-structured");
     ctx.nontrivial();
@@ -1123,8 +1162,8 @@ static void hostile_raw(Src& s, Ctx& ctx) {
 
 void prop(Src& s, Ctx& ctx) {
     unsigned sel = s.u8();
-    if (sel < 176) history(s, ctx);
-    else if (sel < 232) hostile_structured(s, ctx);
+    if (sel < 184) history(s, ctx);
+    else if (sel < 246) hostile_structured(s, ctx);
     else hostile_raw(s, ctx);
 }
 
